@@ -239,6 +239,13 @@ func emitC03(c *Ctx, p *tak.Position, probe bool) {
 		// (the accepts probe subsumes slegal: it pushes every listed move through Move as well)
 		c.Emit("slegal " + tok)
 	}
+	if c.R.Chance(1, 6) {
+		if ms := legalMoves(p); len(ms) > 0 {
+			k := p.Size() + c.R.Intn(9-p.Size())
+			c.Emit("allmovesbuf " + tok + " " + encMove(ms[c.R.Intn(len(ms))]) + " " + strconv.Itoa(k))
+			c.Count("allmovesbuf.bigger-by~" + strconv.Itoa(k-p.Size()))
+		}
+	}
 	g := c.Emit("gencheck " + tok)
 	if !strings.HasSuffix(g, "dup=0 off=0") {
 		c.Count("gencheck.BAD")
